@@ -1196,7 +1196,8 @@ void Parser::maybeAmbiguateCastExpression(ExpressionSyntax*& expr)
             && (prefixExpr->kind() == SyntaxKind::AddressOfExpression
                     || prefixExpr->kind() == SyntaxKind::PointerIndirectionExpression
                     || prefixExpr->kind() == SyntaxKind::UnaryPlusExpression
-                    || prefixExpr->kind() == SyntaxKind::UnaryMinusExpression)))
+                    || prefixExpr->kind() == SyntaxKind::UnaryMinusExpression
+                    || prefixExpr->kind() == SyntaxKind::ExtGNU_LabelAddress)))
         return;
 
     TypeNameSyntax* typeName = castExpr->typeName_;
@@ -1223,6 +1224,10 @@ void Parser::maybeAmbiguateCastExpression(ExpressionSyntax*& expr)
 
         case SyntaxKind::UnaryMinusExpression:
             binExprK = SyntaxKind::SubstractExpression;
+            break;
+
+        case SyntaxKind::ExtGNU_LabelAddress:
+            binExprK = SyntaxKind::LogicalANDExpression;
             break;
 
         default:
